@@ -43,6 +43,16 @@ class Plan:
     def extra_monitor(self, ints, impl):
         return None
 
+    def model_applies(self, model_recs):
+        """False when the model declares the case outside its fragment (status 5)."""
+        return not any(r[:2] in ([70, 5], [82, 5]) for r in model_recs)
+
+    def input_in_fragment(self, ints):
+        return True
+
+    two_stage = False
+    allow_empty = False
+
     def verdict_name(self, r):
         return str(r[:6])
 
